@@ -7,6 +7,10 @@ type nat =
 
 val option_map : ('a1 -> 'a2) -> 'a1 option -> 'a2 option
 
+val fst : ('a1 * 'a2) -> 'a1
+
+val snd : ('a1 * 'a2) -> 'a2
+
 val length : 'a1 list -> nat
 
 val app : 'a1 list -> 'a1 list -> 'a1 list
@@ -19,8 +23,6 @@ type comparison =
 val compOpp : comparison -> comparison
 
 val add : nat -> nat -> nat
-
-val sub : nat -> nat -> nat
 
 type positive =
 | XI of positive
@@ -52,10 +54,6 @@ module Pos :
 
   val iter : ('a1 -> 'a1) -> 'a1 -> positive -> 'a1
 
-  val div2 : positive -> positive
-
-  val div2_up : positive -> positive
-
   val compare_cont : comparison -> positive -> positive -> comparison
 
   val compare : positive -> positive -> comparison
@@ -72,8 +70,6 @@ module Pos :
 
   val ldiff : positive -> positive -> n
 
-  val coq_lxor : positive -> positive -> n
-
   val iter_op : ('a1 -> 'a1 -> 'a1) -> positive -> 'a1 -> 'a1
 
   val to_nat : positive -> nat
@@ -87,9 +83,9 @@ module N :
 
   val coq_lor : n -> n -> n
 
-  val ldiff : n -> n -> n
+  val coq_land : n -> n -> n
 
-  val coq_lxor : n -> n -> n
+  val ldiff : n -> n -> n
  end
 
 module Z :
@@ -105,8 +101,6 @@ module Z :
   val add : z -> z -> z
 
   val opp : z -> z
-
-  val pred : z -> z
 
   val sub : z -> z -> z
 
@@ -142,271 +136,308 @@ module Z :
 
   val modulo : z -> z -> z
 
-  val div2 : z -> z
-
-  val shiftl : z -> z -> z
-
-  val shiftr : z -> z -> z
+  val coq_lor : z -> z -> z
 
   val coq_land : z -> z -> z
-
-  val coq_lxor : z -> z -> z
-
-  val lnot : z -> z
  end
 
 val nth : nat -> 'a1 list -> 'a1 -> 'a1
 
-val flat_map : ('a1 -> 'a2 list) -> 'a1 list -> 'a2 list
+val nth_error : 'a1 list -> nat -> 'a1 option
+
+val last : 'a1 list -> 'a1 -> 'a1
+
+val rev : 'a1 list -> 'a1 list
+
+val map : ('a1 -> 'a2) -> 'a1 list -> 'a2 list
 
 val fold_left : ('a1 -> 'a2 -> 'a1) -> 'a2 list -> 'a1 -> 'a1
 
+val existsb : ('a1 -> bool) -> 'a1 list -> bool
+
 val forallb : ('a1 -> bool) -> 'a1 list -> bool
+
+val filter : ('a1 -> bool) -> 'a1 list -> 'a1 list
 
 val firstn : nat -> 'a1 list -> 'a1 list
 
 val skipn : nat -> 'a1 list -> 'a1 list
 
-val repeat : 'a1 -> nat -> 'a1 list
+type jval =
+| JNull
+| JBool of bool
+| JI64 of z
+| JF64 of z
+| JStr of z list
+| JArr of jval list
+| JObj of (z list * jval) list
 
-val uw : z -> z -> z
+val bytes_eqb : z list -> z list -> bool
 
-val sw : z -> z -> z
+val jbinn_BINN_LIST : z
 
-val wOP_SET : z
+val jbinn_BINN_MAP : z
 
-val wOP_COPY : z
+val jbinn_BINN_OBJECT : z
 
-val wOP_WRITE : z
+val jbinn_BINN_NULL : z
 
-val wOP_RESIZE : z
+val jbinn_BINN_TRUE : z
 
-val wOP_SAVEPOINT : z
+val jbinn_BINN_FALSE : z
 
-val wOP_RESET : z
+val jbinn_BINN_BOOL : z
 
-val wOP_SEP : z
+val jbinn_BINN_UINT8 : z
 
-val sizeof_WBSEP : z
+val jbinn_BINN_INT8 : z
 
-val sizeof_WBRESET : z
+val jbinn_BINN_UINT16 : z
 
-val sizeof_WBSET : z
+val jbinn_BINN_INT16 : z
 
-val sizeof_WBCOPY : z
+val jbinn_BINN_UINT32 : z
 
-val sizeof_WBWRITE : z
+val jbinn_BINN_INT32 : z
 
-val sizeof_WBRESIZE : z
+val jbinn_BINN_UINT64 : z
 
-val sizeof_WBSAVEPOINT : z
+val jbinn_BINN_INT64 : z
 
-val offsetof_WBSEP_crc : z
+val jbinn_BINN_FLOAT32 : z
 
-val offsetof_WBSEP_len : z
+val jbinn_BINN_FLOAT64 : z
 
-val offsetof_WBSET_val : z
+val jbinn_BINN_DOUBLE : z
 
-val offsetof_WBSET_off : z
+val jbinn_BINN_STRING : z
 
-val offsetof_WBSET_len : z
+val jbinn_STORAGE_NOBYTES : z
 
-val offsetof_WBCOPY_off : z
+val jbinn_STORAGE_BYTE : z
 
-val offsetof_WBCOPY_len : z
+val jbinn_STORAGE_WORD : z
 
-val offsetof_WBCOPY_noff : z
+val jbinn_STORAGE_DWORD : z
 
-val offsetof_WBWRITE_crc : z
+val jbinn_STORAGE_QWORD : z
 
-val offsetof_WBWRITE_len : z
+val jbinn_STORAGE_STRING : z
 
-val offsetof_WBWRITE_off : z
+val jbinn_STORAGE_BLOB : z
 
-val offsetof_WBRESIZE_osize : z
+val jbinn_STORAGE_CONTAINER : z
 
-val offsetof_WBRESIZE_nsize : z
+val jbinn_STORAGE_MASK : z
 
-val offsetof_WBSAVEPOINT_ts : z
+val jbinn_STORAGE_HAS_MORE : z
 
-val iwu_crc32_table : z list
+val jbinn_MIN_BINN_SIZE : z
 
-val wAL_PAGE_SIZE : z
+val jbinn_MAX_BIN_KEY_LEN : z
 
-val bKP_WAL_CLEANUP : z
+val jbinn_JBL_MAX_NESTING_LEVEL : z
 
-val bKP_MAIN_COPY : z
+val jbinn_sizeof_int : z
 
-val wAL_SCAN_SP_CHECKS_AVAIL : z
+val jbinn_UINT8_MAX : z
 
-val iW_ROUNDUP : z -> z -> z
+val jbinn_UINT16_MAX : z
 
-type bytes = z list
+val jbinn_UINT32_MAX : z
 
-val le_enc : nat -> z -> bytes
+val jbinn_INT8_MIN : z
 
-val le_dec : bytes -> z
+val jbinn_INT16_MIN : z
 
-val rd : nat -> z -> bytes -> z
+val jbinn_INT32_MIN : z
 
-val rd_off : z -> bytes -> z
+val jbinn_STRING_KEEPS_NUL : z
 
-type rec0 =
-| RSep of z * z
-| RSet of z * z * z
-| RCopy of z * z * z
-| RWrite of z * z * bytes
-| RResize of z * z
-| RSavepoint of z
-| RReset
+val be_bytes : nat -> z -> z list
 
-val hdr : z -> bytes
+val be_val : nat -> z list -> z option
 
-val enc_rec : rec0 -> bytes
+val cstr : z list -> z list
 
-val encode : rec0 list -> bytes
+val zlen : 'a1 list -> z
 
-val rec_size : rec0 -> z
+val zskip : z -> 'a1 list -> 'a1 list
 
-val layout_ok : bool
+val zfirst : z -> 'a1 list -> 'a1 list
 
-val crc32_step : z -> z -> z
+val tolower : z -> z
 
-val crc32 : bytes -> z -> z
+val strnieq : z list -> z list -> nat -> bool
 
-type sstep =
-| SStop
-| SNext of z * z * z
+val rd_field : z list -> (z * z) option
 
-val scan_step : bool -> bool -> z -> z -> bytes -> z -> z -> sstep
+val read_hdr : z list -> (((z * z) * z) * z) option
 
-val scan_loop : bool -> nat -> bool -> z -> z -> bytes -> z -> z -> z * z
+val advance : z list -> z -> (z list * z) option
 
-val sp_checks : bool
+type bval = { bt : z; bnum : z; bsize : z; bcount : z; bptr : z list }
 
-val scan_with : bool -> bytes -> z * z
+val get_value : z list -> bval option
 
-val scan : bytes -> z * z
+type biter = { it_p : (z list * z) option; it_cur : z; it_cnt : z; it_type : z }
 
-val parse_loop : nat -> bytes -> rec0 list option
+val iter_init : z list -> z -> biter option
 
-val parse : bytes -> rec0 list option
+val list_next : biter -> (bval * biter) option
 
-val is_sp : rec0 -> bool
+val object_next : biter -> ((z list * bval) * biter) option
 
-val is_sep : rec0 -> bool
+val list_items : nat -> biter -> bval list
 
-val first_sp : rec0 list -> z -> z option
+val obj_items : nat -> biter -> (z list * bval) list
 
-val u32 : z -> bool
+val iter_fuel : biter -> nat
 
-val i64 : z -> bool
+val sx : z -> z -> z
 
-val rec_range : rec0 -> bool
+val create_scalar : bval -> jval option
 
-val sep_ok : rec0 list -> z -> bool
+val dec_node : nat -> bval -> jval option
 
-val wf_log : rec0 list -> bool
+val root_bval : z list -> bval option
 
-val crc_ok : rec0 list -> bool
+val binn_decode : z list -> jval option
 
-val sp_offsets : rec0 list -> z -> z list
+val compress_int : z -> z * nat
 
-type verdict =
-| VOk
-| VCorrupt
-| VFault
+val wr_field : z -> z list
 
-type aop =
-| ASet of z * z * z
-| ACopy of z * z * z
-| AWrite of z * bytes
-| AResize of z
+val save_header : z -> z list -> z -> z list option
 
-val take_pad : z -> bytes -> bytes
+val search_key : nat -> z list -> z -> z list -> bool
 
-type rstep =
-| RStop of verdict
-| RNext of z * aop list
+val enc_item : jval -> z list option
 
-val replay_step : bool -> bool -> z -> z -> bytes -> z -> rstep
+val binn_encode : jval -> z list option
 
-val replay_loop :
-  nat -> bool -> bool -> z -> z -> bytes -> z -> verdict * aop list
+val binn_clone : z list -> z list option
 
-val replay_ops_with : bool -> bool -> z -> z -> bytes -> verdict * aop list
+val binn_clone_into_pool : z list -> z list option
 
-val replay_ops : bool -> z -> z -> bytes -> verdict * aop list
+val char_ok : z -> bool
 
-val overwrite : bytes -> bytes -> bytes option
+val key_ieq : z list -> z list -> bool
 
-val splice_at : bytes -> z -> bytes -> bytes option
+val keys_unique : z list list -> bool
 
-val splice : bytes -> z -> bytes -> bytes option
+val wf : jval -> bool
 
-val fill_at : bytes -> z -> z -> z -> bytes option
+type pres =
+| PErr
+| PUndef
+| POk of z list list
 
-val slice_at : bytes -> z -> z -> bytes option
+val seg_scan : z list -> z list -> (z list * z list) option
 
-val resize_nat : nat -> bytes -> bytes
+val segs_scan : nat -> z list -> z list list option
 
-val apply_op : bytes -> aop -> bytes option
+val count_slash : z list -> nat
 
-val apply_ops : bytes -> aop list -> bytes option
+val ptr_parse3 : z list -> pres
 
-val recover_with :
-  bool -> bool -> z -> z -> bytes -> bytes -> (verdict * bytes) * aop list
+val rfc_unescape : z list -> z list option
 
-val recover : bool -> z -> z -> bytes -> bytes -> (verdict * bytes) * aop list
+val split_slash : z list -> z list -> z list list
 
-val aop_sig : aop -> (z * z) * z
+val all_some : 'a1 option list -> 'a1 list option
 
-type effect =
-| ELogAppend of bytes
-| ELogFsync
-| ELogTruncate
-| EMainStore of aop
-| EMainResize of z
-| EMsync
+val rfc_ptr_parse : z list -> z list list option
 
-type pstate = { p_buf : bytes; p_log : bytes; p_disk : bytes; p_rfoff : 
-                z; p_stage : z; p_fatal : bool }
+val is_digit : z -> bool
 
-type pcfg = { c_bufsz : z; c_ccrc : bool }
+val rfc_index : z list -> z option
 
-val lenZ : bytes -> z
+val find_key : z list -> (z list * jval) list -> jval option
 
-val flush_wl : pcfg -> pstate -> bool -> pstate * effect list
+val rfc6901_at : z list list -> jval -> jval option
 
-val write_wl : pcfg -> pstate -> bytes -> bytes -> pstate * effect list
+val digits_rev : nat -> z -> z list
 
-val replay_effects : z -> aop list -> effect list
+val itoa : z -> z list
 
-val rollforward_live : pcfg -> pstate -> pstate * effect list
+val star : z list -> bool
 
-val checkpoint : pcfg -> pstate -> bool -> z -> pstate * effect list
+val seg_at : z list list -> z -> z list
 
-val savepoint : pcfg -> pstate -> z -> bool -> pstate * effect list
+val strncmp_eq : z list -> z list -> z -> bool
 
-type event =
-| VWrite of z * bytes
-| VSet of z * z * z
-| VCopy of z * z * z
-| VResize of z * z
-| VSynced
-| VSavepoint of z * bool
-| VCheckpoint of z
+val upd_jbl : z list list -> z -> z -> z list option -> z -> z * bool
 
-val write_hdr : z -> z -> z -> bytes
+val upd_jbn : z list list -> z -> z -> z list option -> z -> z * bool
 
-val step : pcfg -> pstate -> event -> pstate * effect list
+type 'n kres =
+| KNot
+| KErr of z
+| KSome of ((z list option * z) * 'n) list
 
-val run : pcfg -> pstate -> event list -> pstate * effect list
+val e_INVALID : z
 
-val apply_effect : (bytes * bytes) -> effect -> bytes * bytes
+val e_NESTING : z
 
-val after_effects : bytes -> bytes -> effect list -> bytes * bytes
+val e_FUEL : z
 
-val recovery_effects : bool -> bytes -> bytes -> effect list
+val e_DECODE : z
 
-val effect_sig : effect -> ((z * z) * z) * z
+type 'n vst = { v_pos : z; v_res : 'n option; v_term : bool }
+
+type 'n vr =
+| VErr of z
+| VOk of 'n vst
+
+val visit :
+  ('a1 -> 'a1 kres) -> (z list list -> z -> z -> z list option -> z ->
+  z * bool) -> bool -> z list list -> nat -> z -> ((z list option * z) * 'a1)
+  list -> 'a1 vst -> 'a1 vr
+
+type 'n at_res =
+| AtFound of 'n
+| AtNotFound
+| AtPtrErr
+| AtPtrUndef
+| AtErr of z
+
+val at_fuel : z list list -> nat
+
+val number : z -> 'a1 list -> ((z list option * z) * 'a1) list
+
+val kids_j : jval -> jval kres
+
+val at_tree2 : jval -> z list list -> jval at_res
+
+val at_tree : jval -> z list -> jval at_res
+
+val kids_b : bval -> bval kres
+
+val at_bval2 : bval -> z list list -> bval at_res
+
+val at_binn2 : z list -> z list list -> jval at_res
+
+val at_binn : z list -> z list -> jval at_res
+
+type cframe = { f_key : z list option; f_obj : bool;
+                f_kids : (z list option * jval) list }
+
+type cst = { c_stack : cframe list; c_pend : (z list option * bool) option;
+             c_pos : z }
+
+val frame_val : cframe -> jval
+
+val add_kid : (z list option * jval) -> cframe list -> cframe list
+
+val flush : cst -> cst
+
+val pop1 : cframe list -> cframe list
+
+val popn : nat -> cframe list -> cframe list
+
+val clone_visit : z -> z list option -> jval -> cst -> cst
+
+val clone_walk : z -> jval -> cst -> cst
+
+val jbn_clone : jval -> jval
